@@ -117,19 +117,21 @@ def run_case(case):
                 C["skipped_undefined"] += 1
                 continue
             got_r = itf.py_compute_propensities(x.copy(), pt["t"])
-            if any(abs(float(g) - e) > 1e-10 * max(1.0, abs(e)) for g, e in zip(got_r, expr)):
-                C["rate_mismatch_skipped"] += 1   # a rate-law defect is reported once, under C01/C02
+            # The derivative is assembled from the reactions' own rates: the expected value uses the rates the interface
+            # reports (so floating-point differences inside a rate law, e.g. sympy re-ordering a general rate, do not enter),
+            # and is asserted only where those rates agree with the reference rate laws (a rate-law defect belongs to C01/C02).
+            if any(abs(float(g) - e) > 1e-7 * max(1.0, abs(e)) for g, e in zip(got_r, expr)):
+                C["rate_mismatch_skipped"] += 1
                 continue
             dx = np.full(len(idx), 12345.0)
             itf.py_calculate_deterministic_derivative(x.copy(), dx, pt["t"])
-            scale = {s: 0.0 for s in idx}
-            for ri, rr in enumerate(expr):
-                for s in idx:
-                    scale[s] += abs((S[ri].get(s, 0) + Sd[ri].get(s, 0)) * rr)
             for s, i in idx.items():
+                terms = [(S[ri].get(s, 0) + Sd[ri].get(s, 0)) * float(got_r[ri]) for ri in range(len(expr))]
+                want = math.fsum(terms)
+                scale = sum(abs(t_) for t_ in terms)
                 C["derivative_components_compared"] += 1
-                if abs(dx[i] - exp[s]) > 1e-11 * max(scale[s], 1e-300) + 1e-300:
-                    viol.append({"key": "C03/derivative", "msg": "route %s order %s: d%s/dt=%r expected %r at %s t=%s" % (route, perm, s, dx[i], exp[s], pt["x"], pt["t"])})
+                if abs(dx[i] - want) > 1e-13 * max(scale, 1e-300) + 1e-300:
+                    viol.append({"key": "C03/derivative", "msg": "route %s order %s: d%s/dt=%r expected sum (S+Sd)*rate = %r at %s t=%s" % (route, perm, s, dx[i], want, pt["x"], pt["t"])})
                     break
         if len(viol) > 4:
             break
